@@ -154,6 +154,10 @@ class AbstractDataset:
     def trimmed_after_convolution_from(self, kernel_shape) -> "AbstractDataset":
         dataset = copy.copy(self)
 
+        for name in list(dataset.__dict__):
+            if isinstance(getattr(type(dataset), name, None), cached_property):
+                del dataset.__dict__[name]
+
         dataset.data = dataset.data.trimmed_after_convolution_from(
             kernel_shape=kernel_shape
         )
